@@ -2336,6 +2336,9 @@ func (p *Parser) evaluateLogicalOperation(ctx context, operator LogicalOperator,
 		if errTemp != nil {
 			return nil, errTemp
 		}
+		if !rightExpression.ValueType().IsBool() {
+			return nil, p.expectedError("boolean value", operatorToken)
+		}
 		leftExpression = LogicalOperation{
 			left:     leftExpression,
 			operator: operatorValue,
